@@ -22,7 +22,11 @@ func (t *Translator) block(b *ssa.BasicBlock, st *State) {
 			pred := b.Preds[i]
 			for _, inc := range t.incoming[b] {
 				if inc.from == pred {
-					t.vc.assume(inc.st.pc, "(= "+n+" "+t.val(inc.st, e)+")")
+					ev := t.val(inc.st, e)
+					if ty, boxed := t.vc.copyIns[ev]; boxed {
+						t.vc.copyIns[n] = ty // a variable that may hold a boxed interior pointer
+					}
+					t.vc.assume(inc.st.pc, "(= "+n+" "+ev+")")
 				}
 			}
 		}
@@ -78,6 +82,12 @@ func (t *Translator) instr(st *State, in ssa.Instruction) {
 		p := t.pathOf(st, in.Addr)
 		var v string
 		if _, isPtr := in.Val.Type().Underlying().(*types.Pointer); isPtr {
+			switch in.Val.(type) {
+			case *ssa.FieldAddr, *ssa.IndexAddr:
+				if !(p.local != nil && len(p.steps) == 0) {
+					t.vc.unsupportedf("address of a field or element stored in the heap in %s at %s", t.short, t.w.pos(in.Pos()))
+				}
+			}
 			v = t.refOf(st, in.Val)
 		} else {
 			v = t.val(st, in.Val)
@@ -96,6 +106,11 @@ func (t *Translator) instr(st *State, in ssa.Instruction) {
 				v = n
 			}
 			t.vals[in] = v
+			if p.local != nil && len(p.steps) == 0 && t.interiorLocals[p.local] {
+				if pt, isPtr := in.Type().Underlying().(*types.Pointer); isPtr {
+					t.vc.copyIns[v] = pt.Elem() // value of a variable that may hold a boxed interior pointer
+				}
+			}
 			t.assumeTyped(st, v, in.Type())
 			switch in.Type().Underlying().(type) {
 			case *types.Slice, *types.Array, *types.Struct:
@@ -232,6 +247,11 @@ func (t *Translator) instr(st *State, in ssa.Instruction) {
 			t.assume(st, "(= "+n+" ((as const (Array "+ks+" Bool)) false))")
 			st.iters[in] = n
 			t.vals[in] = "0"
+			if t.rangeDom0 == nil {
+				t.rangeDom0 = map[*ssa.Range]string{}
+			}
+			md, _ := t.w.mapArrs(mt)
+			t.rangeDom0[in] = "(select " + t.arrTerm(md, st.heap) + " " + t.val(st, in.X) + ")"
 		} else {
 			t.vc.unsupportedf("range over string in %s", t.short)
 			t.vals[in] = "0"
@@ -463,6 +483,14 @@ func (t *Translator) next(st *State, in *ssa.Next) {
 	t.assume(st, "(=> (not "+okc+") (or (= "+m+" 0) (forall (("+q+" "+ks+")) (! (=> (select "+domArr+" "+q+") (select "+seen+" "+q+")) :pattern ((select "+domArr+" "+q+")) :pattern ((select "+seen+" "+q+"))))))")
 	t.assumeTyped(st, v, mt.Elem())
 	t.assumeTyped(st, k, mt.Key())
+	// every key is visited at most once and (no key is added to the ranged map inside the loop: a direct insertion of a new key
+	// is a safety obligation, and no call in the loop writes this map type) only keys present at the start are visited:
+	// the number of keys visited before this one is below the number of entries the map had
+	if d0, ok := t.rangeDom0[r]; ok && t.rangeBound[r] == 1 {
+		t.vc.needCard(ks)
+		cn := "card!" + sanitize(ks)
+		t.assume(st, "(=> "+okc+" (< ("+cn+" "+seen+") ("+cn+" "+d0+")))")
+	}
 	nseen := t.vc.freshConst("seen", "(Array "+ks+" Bool)")
 	t.assume(st, "(= "+nseen+" (ite "+okc+" (store "+seen+" "+k+" true) "+seen+"))")
 	st.iters[r] = nseen
